@@ -31,6 +31,8 @@ int verif_thrown, verif_throw_type, verif_throw_code;
 #endif
 #define VERIF_THROW(T, C) do { verif_thrown = 1; verif_throw_type = VT_##T; verif_throw_code = (C); return VERIF_RET; } while (0)
 #define VERIF_RET
+/* R14: a throw inside a try region jumps to that region's handlers */
+#define VERIF_THROW_TO(T, C, L) do { verif_thrown = 1; verif_throw_type = VT_##T; verif_throw_code = (C); goto L; } while (0)
 
 /* canary: in the canary build this assertion must FAIL (precondition satisfiable, call returns) */
 #ifdef VERIF_CANARY_BUILD
